@@ -200,8 +200,9 @@ def mk_const(name, ty):
 
 
 class Event:
-    def __init__(self, kind, callee, args, ret, site, extra=None):
+    def __init__(self, kind, callee, args, ret, site, extra=None, rargs=None):
         self.kind, self.callee, self.args, self.ret, self.site, self.extra = kind, callee, args, ret, site, extra
+        self.rargs = rargs if rargs is not None else args     # args with references resolved at call time
 
     def __repr__(self):
         return "%s %s%s @%s" % (self.kind, self.callee, tuple(self.args), self.site)
@@ -317,7 +318,9 @@ class Engine:
                 continue
             if status == "infeasible":
                 continue
-            results.append(PathResult(list(self.pc), list(self.events), ret, status, list(self.decisions), note))
+            pr = PathResult(list(self.pc), list(self.events), ret, status, list(self.decisions), note)
+            pr.args = a
+            results.append(pr)
             self.stats["paths"] += 1
             if status == "cut":
                 self.stats["cut"] += 1
@@ -572,6 +575,8 @@ class Engine:
             return v.child("*")
         if isinstance(v, Agg) and v.kind == "box":
             return v.fields[0]
+        if isinstance(v, (StrV, ConstV)):
+            return v          # &str / &'static constants: the reference and the referent are not distinguished
         raise Inconclusive("deref of %r" % (v,))
 
     def project(self, v, p, fr=None):
@@ -668,7 +673,7 @@ class Engine:
             pl = rv.place
             if pl.proj and pl.proj[-1][0] == "deref":
                 inner = self.read_place(fr, Place(pl.local, pl.proj[:-1]))
-                if isinstance(inner, (Ref, Sym)):
+                if isinstance(inner, (Ref, Sym, StrV, ConstV)):
                     return inner
             return Ref(frame=fr.id, place=pl)
         if k == "discriminant":
@@ -851,8 +856,17 @@ class Engine:
         # 4. uninterpreted
         self.uninterpreted.add(callee)
         r = self.fresh(("ret", callee), ret_ty)
-        self.events.append(Event("call", callee, args, r, site))
+        self.events.append(Event("call", callee, args, r, site, rargs=self.snapshot(args)))
         return r
+
+    def snapshot(self, args):
+        out = []
+        for a in args:
+            try:
+                out.append(self.peel(a))
+            except (Inconclusive, EndPath):
+                out.append(a)
+        return out
 
     def mk_enum(self, ty, variant, fields):
         return Agg(ty, fields, variant=variant, vindex=self.variant_index(ty, variant), kind="enum")
@@ -890,7 +904,11 @@ class Engine:
                     if ev.ret is src:
                         fargs = ev.args
             r = self.fresh(("await", name))
-            self.events.append(Event("await", name, fargs, r, site))
+            rargs = None
+            for ev in self.events:
+                if ev.ret is src:
+                    rargs = ev.rargs
+            self.events.append(Event("await", name, fargs, r, site, rargs=rargs))
             return self.mk_enum("Poll", "Ready", [r])
         # --- origin-preserving conversions ---
         m = re.search(r"(?:as (?:std::)?(?:clone::)?Clone>::clone|as ToOwned>::to_owned|as Borrow<[^>]*>>::borrow|as AsRef<[^>]*>>::as_ref|"
